@@ -317,9 +317,15 @@ impl DatabaseIterator {
                 .write()
                 .element
                 .record_read_sample(current_key);
+            #[cfg(raindb_verif)]
+            if needs_seek_compaction {
+                raindb_verif_rt::probe("read_sample_exhausted_seeks");
+            }
             if needs_seek_compaction
                 && DB::should_schedule_compaction(&self.db_state, &mut db_fields_guard)
             {
+                #[cfg(raindb_verif)]
+                raindb_verif_rt::probe("read_sample_scheduled_compaction");
                 self.compaction_worker.schedule_task(TaskKind::Compaction);
             }
         }
